@@ -366,13 +366,15 @@ def check(ctx, case, uni, ans):
     ctx.count("outcome:" + ("ok" if "removed" in impl else impl["err"]))
     # the directory layout: what the store lists as its objects is what the two-component paths below its root spell, and
     # a collection leaves every other file below the root where it was
-    f_before, all_before, f_after, all_after = run_impl.layout
-    lay = ctx.driver.ask({"op": "store_layout", "files": f_before, "keep": all_after if isinstance(all_after, list) else []})
-    ctx.corr("StoreLayout.listOids~ObjectDB.all() (before gc)", case, all_before, sorted(lay.get("oids", [])) if "oids" in lay else lay)
-    if isinstance(all_after, list):
-        ctx.corr("StoreLayout.afterGc~files below the store root after gc", case, f_after, sorted(lay.get("after_gc", [])) if "after_gc" in lay else lay)
-    if any(len(f) != 2 or len(f[0]) != 2 for f in f_before):
-        ctx.count("layout:files that are no objects below the root")
+    # (the names family does not vary the layout of the store: it leaves this tie, one driver process per case, to the others)
+    if case.get("names") is None:
+        f_before, all_before, f_after, all_after = run_impl.layout
+        lay = ctx.driver.ask({"op": "store_layout", "files": f_before, "keep": all_after if isinstance(all_after, list) else []})
+        ctx.corr("StoreLayout.listOids~ObjectDB.all() (before gc)", case, all_before, sorted(lay.get("oids", [])) if "oids" in lay else lay)
+        if isinstance(all_after, list):
+            ctx.corr("StoreLayout.afterGc~files below the store root after gc", case, f_after, sorted(lay.get("after_gc", [])) if "after_gc" in lay else lay)
+        if any(len(f) != 2 or len(f[0]) != 2 for f in f_before):
+            ctx.count("layout:files that are no objects below the root")
     # oracle
     ex_before, ex_after = run_impl.extras
     if case.get("nest"):
@@ -469,14 +471,14 @@ def run(ctx):
     run_cases(ctx, ctx.n(300, 4000))
     run_cases(ctx, ctx.n(150, 1500), algos=True)
     run_cases(ctx, ctx.n(120, 1200), nested=True)
-    run_cases(ctx, ctx.n(150, 1500), names=True)
+    run_cases(ctx, ctx.n(250, 2000), names=True)
 
 
 def search(ctx):
     run_cases(ctx, 4000)
     run_cases(ctx, 1500, algos=True)
     run_cases(ctx, 1200, nested=True)
-    run_cases(ctx, 1500, names=True)
+    run_cases(ctx, 2000, names=True)
 
 
 def replay(ctx, payload):
